@@ -255,13 +255,15 @@ def _srv(ctx, q, b):
     # 4. the server
     evals = distinct = 0
     depth_cfg = "TxPool_gen_a.cfg" if q else "TxPool_gen_a_thorough.cfg"
-    for pre, gcfg, tcfg in (("1", depth_cfg, "TraceTxPoolSrv_a"), ("0", depth_cfg.replace("_a", "_n"), "TraceTxPoolSrv_n")):
-        # quick: every edge for the node's default (pre-execution on), random walks only for the other setting
-        scs = _dedupe(ctx.gen("TxPool", gcfg, "EDGE", timeout=1500)) if (pre == "1" or not q) else []
+    settings = [("1", depth_cfg, "TraceTxPoolSrv_a")]
+    if not q:   # quick: the node's default (pre-execution on); the capacity runs below use the other setting
+        settings.append(("0", depth_cfg.replace("_a", "_n"), "TraceTxPoolSrv_n"))
+    for pre, gcfg, tcfg in settings:
+        scs = _dedupe(ctx.gen("TxPool", gcfg, "EDGE", timeout=1500))
         walks = ctx.tlc("TxPool", gcfg.replace("gen_", "walk_").replace("_thorough", ""), workers=1, timeout=900,
                         simulate="num=%d" % (60 if q else 600), depth=14).emitted("WALK")
         walks = list({json.dumps(w["steps"][:-1], sort_keys=True): w for w in walks}.values())   # one per random walk
-        if (scs and len(scs) < 500) or len(walks) < 20:
+        if len(scs) < 500 or len(walks) < 20:
             ctx.fail("too few server scenarios: %d edges, %d walks" % (len(scs), len(walks)))
         scs = [{"steps": s["steps"]} for s in scs + walks]
         e, d = _server(ctx, b, scs, [pre, "0", "1"], tcfg, "srv-preexec" + pre)
